@@ -219,6 +219,10 @@ def go_harness(ctx, pkg, test, *, env=None, tags="verif", timeout=600, race=Fals
     """Run one harness test of package <pkg> (path relative to the repo root) against the current working tree.
     Returns the parsed report (dict). Build failures / crashes are MachineryError."""
     name = name or test
+    if "poll_opt" in tags and pkg == "pkg/netpoll":
+        # the repository's own example_test.go does not compile with poll_opt (Polling takes no argument there)
+        extra_overlay = dict(extra_overlay or {})
+        extra_overlay[os.path.join(REPO, "pkg/netpoll/example_test.go")] = os.path.join(HARNESS, "stubs", "netpoll_example_stub.go")
     ov = overlay(ctx, [pkg], extra_overlay)
     outp = os.path.join(ctx.scratch, "report.%s.json" % name)
     if os.path.exists(outp):
